@@ -601,6 +601,9 @@ def run(ctx):
                 "(all ordered pairs of %d step kinds per band + random longer ones; sequential / earlier connections held / concurrent; 1-2 clients), one case per login; "
                 "timed sessions = 2..9 logins at chosen virtual instants against one long-lived pair of secure servers, the authentication server handing out the byte-identical ticket of a group at ages from 0.5 s over 119.75 / 120.25 s to a day + 5 s "
                 "(band x transport x 5 age patterns + random ones; other groups and freshly issued tickets interleaved), judged at the actual instants; every recorded process_login_request of every session is replayed into Lean Backend.serve and every CONNECT payload compared with Backend.connectRequest; "
+                "several deployments in ONE process (c17_multi.py) = 2..6 logins through 2..3 authentication servers (other hosts and / or ports, own or alike secure keys, own Settings or one shared) whose stations are the byte-identical 0.0.0.1 placeholder url, the byte-identical real url of a shared secure server, or own ones, "
+                "in the orders AB, ABA, AAB, ABB, ABAB, ABBA, AABA over two deployments, ABC, ABCA, ABAC, ACBA over three and random ones x sequential / held / concurrent x BackEndClients connected up front / lazily / anew per login, with distinct accounts and with the same user name / pid / both / the very same account (and guest) on several deployments, failure scripts mixed in: "
+                "each login must be admitted exactly once, at ITS deployment's server, as the issued pid, with every authentication call at ITS authentication server; compared with the Lean plan of its own deployment; "
                 "each login is compared with the Lean plan (session: the k-th plan of Backend.session) and judged by the property oracle" % (len(FAILURES), len(STEP_KINDS)))
     cases = []
     i = 0
@@ -652,10 +655,16 @@ def run(ctx):
     sessions = build_sessions(rng, quick, i)
     timed_sessions, _ = build_timed_sessions(rng, quick, sessions[-1]["seed"] if sessions else i)
     sessions += timed_sessions
+    import c17_multi
+    multis, _ = c17_multi.build(rng, quick, sessions[-1]["seed"] if sessions else i)      # built last: the older families keep their draws
     with multiprocessing.get_context("fork").Pool(min(16, os.cpu_count() or 4)) as pool:
         pending = pool.map_async(session_worker, sessions, chunksize=4)
         observations = pool.map(worker, cases, chunksize=8)
         session_outs = pending.get()
+    import time as _time
+    _t0 = _time.time()
+    multi_outs = c17_multi.run_fresh(multis)      # each in a freshly forked process: the interpreter's history is the scenario's own
+    multi_wall = _time.time() - _t0
     crashes = [(c, o) for c, o in zip(cases, observations) if "crash" in o]
     if crashes:
         ctx.corr_break("simulation-crash", "the simulation harness crashed on %d cases: %s" % (len(crashes), crashes[0][1]["crash"]), {"case": _jsonable(crashes[0][0])})
@@ -802,7 +811,18 @@ def run(ctx):
             text += " [in this session: %s; the fresh-client comparison run restarts the same cycle of pinned values, so with a cycle of several values its endpoints may draw other members of it]" % describe_draws(x["draws"])
         ctx.violation(key, text, {"session": _jsonable_session(x), "step": k, "observed": {"steps": [_jsonable(so) for so in o["steps"]], "stray": o["stray"], "error": o["error"], "draws_made": o.get("draws_made")},
                                   "how": "harness/backend_sim.run_session(session) (./check C17 --replay <this file>)"})
-    ctx.traces_validated = len(cases) + sum(len(x["steps"]) for x in sessions)
+    # ---- several deployments in one process (c17_multi.py): every login against ITS deployment's plan and the property
+    def batch_chunked(ls):
+        chunks = [ls[k::nchunk] for k in range(nchunk)]
+        with ThreadPoolExecutor(nchunk) as ex:
+            ocs = list(ex.map(lambda ch: drv.batch(ch) if ch else [], chunks))
+        res = [None] * len(ls)
+        for k, oc in enumerate(ocs): res[k::nchunk] = oc
+        return res
+    _t0 = _time.time()
+    c17_multi.evaluate(ctx, batch_chunked, multis, multi_outs)
+    ctx.extra["multi_wall_seconds"] = round(multi_wall + _time.time() - _t0, 1)
+    ctx.traces_validated = len(cases) + sum(len(x["steps"]) for x in sessions) + sum(len(x["steps"]) for x in multis)
     ctx.exhaustive = True
     ctx.extra["matrix_configurations"] = n_matrix
     ctx.extra["failure_script_runs"] = sum(1 for c in cases if c["kind"].startswith("fail"))
@@ -869,6 +889,10 @@ def run(ctx):
 def replay(ctx, path):
     import json, backend_sim
     r = json.load(open(path))
+    if "multi" in r:
+        import c17_multi
+        c17_multi.replay(r["multi"])
+        return 0
     if "session" in r:
         out = backend_sim.run_session(_unjson_session(r["session"]))
         timed = r["session"].get("timed")
